@@ -13,7 +13,8 @@
 From Coq Require Import List NArith Bool Permutation.
 From BS Require Import Base.Sexp Base.Types Base.Reader Gen.Entities Gen.T_C09
      Model.SmartQuotes Model.EntitySubst Model.EntitySubstFast Spec.EntitiesSpec Proofs.EntitiesTables Proofs.EntitiesProofs
-     Proofs.EntitiesAttrProofs.
+     Proofs.EntitiesAttrProofs Proofs.EntitiesIff Model.TextReaderReal Proofs.TextReaderRealProofs
+     Model.UnescapeLimit Proofs.UnescapeLimitProofs.
 Import ListNotations.
 Open Scope N_scope.
 
@@ -167,6 +168,96 @@ Theorem C09_html5_attr_roundtrip_refuted :
 Proof. exact html5_attr_refuted. Qed.
 Print Assumptions C09_html5_attr_roundtrip_refuted.
 
+(* EXACT CLASS of the finding: the two hypotheses are not merely sufficient. A string reads back from
+   substitute_html5 if and only if it has no bare reference (neither reader ever gives out more characters
+   than it consumes, and a completed reference gives out strictly fewer). *)
+Theorem C09_html5_text_roundtrip_iff : forall s,
+  read_text (substitute_html5 s) = s <-> no_bare_ref s = true.
+Proof. exact html5_text_roundtrip_iff. Qed.
+Print Assumptions C09_html5_text_roundtrip_iff.
+
+Theorem C09_html5_attr_roundtrip_iff : forall s,
+  read_quoted (quoted_attribute_value (substitute_html5 s)) = Some s <-> no_bare_ref_attr s = true.
+Proof. exact html5_attr_roundtrip_iff. Qed.
+Print Assumptions C09_html5_attr_roundtrip_iff.
+
+(* table obligations behind the counting argument: a named reference never stands for more characters than
+   its name has (bs4's table) / than two (html.entities.html5); the special numeric replacements are one character *)
+Theorem C09_tbl_reference_lengths :
+  forallb (fun kv => Nat.leb (length (snd kv)) (length (fst kv))) html_entity_to_character = true /\
+  forallb (fun kv => Nat.leb (length (snd kv)) 2) py_html5 = true /\
+  forallb (fun kv => Nat.leb (length (snd kv)) 1) py_invalid_charrefs = true.
+Proof. exact (conj ent_values_short_tbl (conj html5_values_short_tbl invalid_charrefs_short_tbl)). Qed.
+Print Assumptions C09_tbl_reference_lengths.
+
+(* ---------------------------------------------------------------------------------------------- *)
+(* the REAL text reader: html.parser gives up at "&#" that is not a reference (Model/TextReaderReal.v) *)
+(* ---------------------------------------------------------------------------------------------- *)
+
+(* Base/Reader.v idealises exactly one situation. Wherever the tokenizer never gets into it, the real reader and
+   the idealised one agree: from any state, in either pass, whatever follows the text *)
+Theorem C09_real_reader_agrees : forall t st p K,
+  never_bad st t = true -> real_from st p t K = (read_from ent_text num_text st t, Goes p).
+Proof. exact real_is_ideal. Qed.
+Print Assumptions C09_real_reader_agrees.
+
+(* 'minimal' and 'html', every string, any document context: the real parser reads the original back and goes on
+   tokenizing - the idealisation is unobservable on their image *)
+Theorem C09_minimal_html_real_text_roundtrip : forall s p K,
+  (exists o, substitute_xml s false = Some o /\ real_read_text p o K = (s, Goes p)) /\
+  real_read_text p (substitute_html s) K = (s, Goes p).
+Proof. exact minimal_html_real_text. Qed.
+Print Assumptions C09_minimal_html_real_text_roundtrip.
+
+(* 'html5': for every string without a stray "&#" (decidable), the real parser reads what the idealised reader
+   reads, and reads the original back exactly when there is no bare reference *)
+Theorem C09_html5_real_text : forall s p K,
+  no_stray_hash s = true ->
+  real_read_text p (substitute_html5 s) K = (read_text (substitute_html5 s), Goes p) /\
+  (real_read_text p (substitute_html5 s) K = (s, Goes p) <-> no_bare_ref s = true).
+Proof. exact (fun s p K H => conj (real_reads_html5 s p K H) (real_html5_roundtrip_iff s p K H)). Qed.
+Print Assumptions C09_html5_real_text.
+
+(* on the image of 'html5' the idealisation IS observable (same finding): "&#" has no bare reference and reads back
+   in the idealised reader, but the real parser stops tokenizing and takes the closing tag for text *)
+Theorem C09_html5_real_observable :
+  no_bare_ref stray_witness = true /\ read_text (substitute_html5 stray_witness) = stray_witness /\
+  real_read_text false (substitute_html5 stray_witness) k_pre = (stray_witness ++ k_pre, Stopped).
+Proof. exact real_html5_observable. Qed.
+Print Assumptions C09_html5_real_observable.
+
+(* ---------------------------------------------------------------------------------------------- *)
+(* the attribute reader with its failure: int()'s digit limit inside html.unescape                  *)
+(* ---------------------------------------------------------------------------------------------- *)
+
+(* for every text: quoting and reading back either returns html.unescape of the text or is rejected
+   (ParserRejectedMarkup), the latter exactly when the text has a decimal reference longer than int() accepts *)
+Theorem C09_attr_reader_checked : forall o,
+  read_quoted_checked (quoted_attribute_value o) =
+  if unescape_raises o then AttrRejected else AttrValue (unescape o).
+Proof. exact read_quoted_checked_spec. Qed.
+Print Assumptions C09_attr_reader_checked.
+
+(* 'minimal' and 'html' never produce such a reference: the attribute reader returns the original, every string *)
+Theorem C09_minimal_html_attr_never_rejected : forall v,
+  (exists q, substitute_xml v true = Some q /\ read_quoted_checked q = AttrValue v) /\
+  read_quoted_checked (quoted_attribute_value (substitute_html v)) = AttrValue v.
+Proof. exact minimal_html_attr_checked. Qed.
+Print Assumptions C09_minimal_html_attr_never_rejected.
+
+(* 'html5': never for a string without bare reference; it does happen for one with ("&#" + 4301 digits) *)
+Theorem C09_html5_attr_never_rejected : forall s,
+  no_bare_ref_attr s = true ->
+  read_quoted_checked (quoted_attribute_value (substitute_html5 s)) = AttrValue s.
+Proof. exact html5_attr_checked. Qed.
+Print Assumptions C09_html5_attr_never_rejected.
+
+Theorem C09_html5_attr_can_be_rejected :
+  no_bare_ref_attr over_limit_witness = false /\
+  read_quoted_checked (quoted_attribute_value (substitute_html5 over_limit_witness)) = AttrRejected.
+Proof. exact html5_can_be_rejected. Qed.
+Print Assumptions C09_html5_attr_can_be_rejected.
+
 (* ---------------------------------------------------------------------------------------------- *)
 (* the alternation is built from a Python set: its order cannot matter                              *)
 (* ---------------------------------------------------------------------------------------------- *)
@@ -249,6 +340,11 @@ Proof. vm_compute. reflexivity. Qed.
 Example C09_ex_no_bare_ref_attr :     (* the same string: also fine in the attribute position *)
   no_bare_ref_attr [65; 84; 38; 84; 32; 38; 32; 120; 61; 49; 38; 121; 61; 50; 32; 38; 100; 105; 118; 105; 100; 101; 59;
                     32; 38; 35; 50; 52; 55; 59; 32; 38; 110; 111; 115; 117; 99; 104; 59; 32; 38] = true.
+Proof. vm_compute. reflexivity. Qed.
+
+Example C09_ex_no_stray_hash :        (* the same string has no stray "&#" either *)
+  no_stray_hash [65; 84; 38; 84; 32; 38; 32; 120; 61; 49; 38; 121; 61; 50; 32; 38; 100; 105; 118; 105; 100; 101; 59;
+                 32; 38; 35; 50; 52; 55; 59; 32; 38; 110; 111; 115; 117; 99; 104; 59; 32; 38] = true.
 Proof. vm_compute. reflexivity. Qed.
 
 Example C09_ex_enc : enc [97; 38; 108; 116; 59; 98] [97; 60; 98].      (* "a&lt;b" is "a<b" escaped *)
